@@ -28,11 +28,18 @@ const (
 	UTx2        = "tx2"  // BEGIN, 2 statements on 2 tables, XID
 	UTxDDL      = "txD"  // BEGIN, rows, a DDL statement INSIDE the transaction (DROP TEMPORARY TABLE), rows, XID
 	USet        = "set"  // SET statement outside a transaction
+	UTxSplit    = "txSp" // BEGIN, one table map, ONE statement logged as two rows events (only the last carries STMT_END_F), XID
+	UTxFK       = "txFK" // BEGIN, 2 table maps, rows events with NO_FOREIGN_KEY_CHECKS_F / RELAXED_UNIQUE_CHECKS_F set, XID
+	// (not in the alphabets: the commit point between its two rows events is no valid
+	// start / resume position, the second rows event has no table map of its own;
+	// used in dedicated single-attempt histories only)
+	UAutoSplit = "autS" // one table map + two rows events of one statement without BEGIN
+	UTxFlagged = "txFl" // BEGIN / COMMIT query events with header flags set (THREAD_SPECIFIC_F, SUPPRESS_USE_F)
 )
 
 // BoundaryAlphabet is the C02 alphabet, simplest first.
 var BoundaryAlphabet = []string{UTxXID, UTxCommit, UDDL, UAutoRows, UTxRollback, UStmtOut, UStmtIn, URotate, UTxDDL,
-	UGTID, UAnonGTID, UPrevGTIDs, UHeartbeat, UUnknownEv, UUnknownSt}
+	UGTID, UAnonGTID, UPrevGTIDs, UHeartbeat, UUnknownEv, UUnknownSt, UTxFlagged}
 
 // NoiseUnits never alter the grouping.
 var NoiseUnits = []string{UGTID, UAnonGTID, UPrevGTIDs, UHeartbeat, UUnknownEv, UUnknownSt}
@@ -203,6 +210,29 @@ func (g *Gen) Unit(u string) []*ref.AEvent {
 			ref.R(ts, ref.RowDelete, t, ref.RowChange{Before: row(2, 100)}),
 			ref.R(ts, ref.RowWrite, t, ref.RowChange{After: row(4, 999)}),
 			ref.X(ts+1, uint64(900+k))}
+	case UTxSplit:
+		r1 := ref.R(ts, ref.RowWrite, ta, ref.RowChange{After: rowA(k, label, 1)}, ref.RowChange{After: rowA(k+1000, label+"b", 2)})
+		r1.Rows.Flags = 0
+		r2 := ref.R(ts, ref.RowWrite, ta, ref.RowChange{After: rowA(k+2000, label+"c", 3)})
+		return []*ref.AEvent{ref.Q(ts, "shop", g.sp("BEGIN", g.Begin), cs), ref.TM(ts, ta), r1, r2, ref.X(ts+1, uint64(900+k))}
+	case UTxFK:
+		r1 := ref.R(ts, ref.RowWrite, ta, ref.RowChange{After: rowA(k, label, 1)})
+		r1.Rows.Flags = 0x0002 // NO_FOREIGN_KEY_CHECKS_F, not the end of the statement
+		r2 := ref.R(ts, ref.RowDelete, tb, ref.RowChange{Before: rowB(uint64(k), "fk")})
+		r2.Rows.Flags = 0x0007 // STMT_END_F | NO_FOREIGN_KEY_CHECKS_F | RELAXED_UNIQUE_CHECKS_F
+		return []*ref.AEvent{ref.Q(ts, "shop", g.sp("BEGIN", g.Begin), cs), ref.TM(ts, ta), ref.TM(ts, tb), r1, r2, ref.X(ts+1, uint64(900+k))}
+	case UAutoSplit:
+		r1 := ref.R(ts, ref.RowWrite, tb, ref.RowChange{After: rowB(uint64(k)<<40, "s1"+label)})
+		r1.Rows.Flags = 0
+		r2 := ref.R(ts, ref.RowWrite, tb, ref.RowChange{After: rowB(uint64(k)<<40+1, "s2"+label)})
+		return []*ref.AEvent{ref.TM(ts, tb), r1, r2}
+	case UTxFlagged:
+		b := ref.Q(ts, "shop", g.sp("BEGIN", g.Begin), cs)
+		b.Flags = 0x000c // LOG_EVENT_THREAD_SPECIFIC_F | LOG_EVENT_SUPPRESS_USE_F
+		c := ref.Q(ts+1, "shop", g.sp("COMMIT", g.Commit), cs)
+		c.Flags = 0x0004
+		return []*ref.AEvent{b, ref.TM(ts, ta),
+			ref.R(ts, ref.RowUpdate, ta, ref.RowChange{Before: rowA(k, label, 1), After: rowA(k, label+"'", 2)}), c}
 	case UTx2:
 		return []*ref.AEvent{ref.Q(ts, "shop", g.sp("BEGIN", g.Begin), cs), ref.TM(ts, ta), ref.TM(ts, tb),
 			ref.R(ts, ref.RowWrite, ta, ref.RowChange{After: rowA(k, label, 7)}, ref.RowChange{After: rowA(k+1000, label+"b", 8)}),
@@ -253,7 +283,7 @@ func (g *Gen) Build(units []string) *ref.History {
 
 func isCommitUnit(u string) bool {
 	switch u {
-	case UTxXID, UTxCommit, UTxRollback, UDDL, UAutoRows, UStmtOut, UStmtIn, UTx2, UTxDDL, USet, "pattern":
+	case UTxXID, UTxCommit, UTxRollback, UDDL, UAutoRows, UStmtOut, UStmtIn, UTx2, UTxDDL, USet, "pattern", UTxSplit, UTxFK, UAutoSplit, UTxFlagged:
 		return true
 	}
 	return false
